@@ -211,6 +211,35 @@ impl<E: Engine> RateEncoder<E> for DefaultRateEncoder<E> {
 }
 
 // ======================================================================
+// DefaultRateEncoder / DefaultRateDecoder - VERIFICATION HOOKS
+
+#[cfg(feature = "verif-hooks")]
+impl<E: Engine> DefaultRateEncoder<E> {
+    /// Digest of the complete concrete state, including which rate is in use.
+    #[doc(hidden)]
+    pub fn verif_digest(&self) -> u64 {
+        match &self.0 {
+            InnerEncoder::High(high) => high.verif_digest() ^ 0x4849_4748,
+            InnerEncoder::Low(low) => low.verif_digest() ^ 0x4c4f_5721,
+            InnerEncoder::None => 0,
+        }
+    }
+}
+
+#[cfg(feature = "verif-hooks")]
+impl<E: Engine> DefaultRateDecoder<E> {
+    /// Digest of the complete concrete state, including which rate is in use.
+    #[doc(hidden)]
+    pub fn verif_digest(&self) -> u64 {
+        match &self.0 {
+            InnerDecoder::High(high) => high.verif_digest() ^ 0x4849_4748,
+            InnerDecoder::Low(low) => low.verif_digest() ^ 0x4c4f_5721,
+            InnerDecoder::None => 0,
+        }
+    }
+}
+
+// ======================================================================
 // InnerDecoder - PRIVATE
 
 #[derive(Default)]
